@@ -19,7 +19,7 @@ VARY_KNOBS = True  # module-level tuning constants of the library are lowered in
 VARY_ARGFORM = True  # integer call arguments also arrive as numpy integer scalars
 SHRINK_LISTS = ("ops", "faults", ("files", "nsamps"))
 SHRINK_MIN = {"nchans": 1, "nbits": 1, "gulp": 1}
-SHRINK_SIMPLE = {"knobs": None, "consumer": "plain", "allocator": None, "k4": None, "abandon_at": None, "argform": "int", "peek": None, "made_early": None, "orphan": None}
+SHRINK_SIMPLE = {"knobs": None, "consumer": "plain", "allocator": None, "k4": None, "abandon_at": None, "argform": "int", "peek": None, "made_early": None, "orphan": None, "threads": None}
 
 
 # ------------------------------------------------------------------ generation
@@ -98,6 +98,11 @@ def gen_plan(rng, N, bounds) -> dict:
         skipback = rng.randint(max(0, eff - 1), gulp + 2)
     op = {"op": "plan", "gulp": gulp, "start": start, "nsamps": nsamps, "skipback": skipback,
           "consumer": rng.choice(["plain", "K1", "K1", "K2"]), "allocator": None, "abandon_at": None, "k4": None}
+    if rng.random() < 0.08:
+        # K5: the plan is handed from thread to thread - a GUI thread peeks at the first block and a worker consumes the
+        # rest, or a pool pulls each block from a short-lived thread.  Strictly sequential (each next() is joined before the
+        # following one starts): no concurrency, only the identity of the calling thread changes.
+        op["threads"] = rng.choice(["every-next-in-a-new-thread", "first-here-rest-in-one-worker", "made-in-a-worker-consumed-here"])
     if rng.random() < 0.2:
         op["allocator"] = rng.choice(["A1", "A2", "A3", "A4", "A4", "A5np", "A5array", "A5mmap"])
     if rng.random() < 0.15:
@@ -318,6 +323,46 @@ def regime(op, N) -> tuple:
 
 
 # ------------------------------------------------------------------ execution
+def _in_thread(fn, pool=None):
+    """Run fn() in ANOTHER thread and wait for it: the caller's thread changes, nothing runs concurrently.  With `pool`
+    (a list) one long-lived worker is reused; otherwise a new thread per call."""
+    import queue
+    import threading
+
+    box = {}
+
+    def run(f, b):
+        try:
+            b["v"] = f()
+        except BaseException as e:  # noqa: BLE001 - re-raised in the calling thread
+            b["e"] = e
+
+    if pool is None:
+        t = threading.Thread(target=run, args=(fn, box), name="sim-consumer")
+        t.start()
+        t.join()
+    else:
+        if not pool:
+            q_in, q_out = queue.Queue(), queue.Queue()
+
+            def loop():
+                while True:
+                    job = q_in.get()
+                    if job is None:
+                        return
+                    run(*job)
+                    q_out.put(1)
+
+            t = threading.Thread(target=loop, name="sim-worker", daemon=True)
+            t.start()
+            pool.extend([q_in, q_out, t])
+        pool[0].put((fn, box))
+        pool[1].get()
+    if "e" in box:
+        raise box["e"]
+    return box.get("v")
+
+
 def _plan_of(rd, op, kw):
     """The plan object of `rd`; when this frame returns, the caller's own references are all that keep `rd` alive."""
     gen = iter(rd.read_plan(gulp=nint(op["gulp"]), start=nint(op["start"]), nsamps=nint(op["nsamps"]), skipback=nint(op["skipback"]), quiet=True, **kw))
@@ -423,7 +468,14 @@ def execute(sc, ctx) -> None:
             alloc = op["allocator"]
             if alloc:
                 ctx.probe(alloc[:2])
-            gen = early.pop(i, None) or make_plan(op)
+            thr = op.get("threads") if not sc["faults"] else None
+            if thr:
+                ctx.probe("K5:" + thr)
+            if thr == "made-in-a-worker-consumed-here" and i not in early:
+                gen = _in_thread(lambda: make_plan(op))
+            else:
+                gen = early.pop(i, None) or make_plan(op)
+            worker_pool = []
             if op.get("peek") and not sc["faults"]:
                 # a quick look at some other range between making the plan and iterating it
                 pk = np.asarray(reader.read_block(op["peek"][0], op["peek"][1]).data)
@@ -468,7 +520,10 @@ def execute(sc, ctx) -> None:
                         ff = sum(ctx.faults.values()) > fired0 or truncated
                         return tagbase + ("/fault" if ff else "/nofault")
                     try:
-                        item = next(gen)
+                        if thr == "every-next-in-a-new-thread" or (thr == "first-here-rest-in-one-worker" and yielded >= 1):
+                            item = _in_thread(lambda: next(gen), worker_pool if thr == "first-here-rest-in-one-worker" else None)
+                        else:
+                            item = next(gen)
                     except StopIteration:
                         break
                     if oracle is None:
@@ -510,6 +565,9 @@ def execute(sc, ctx) -> None:
                 raise
             except Exception as e:  # noqa: BLE001 - classified below
                 raised = e
+            if worker_pool:
+                worker_pool[0].put(None)
+                worker_pool[2].join()
             fault_fired = sum(ctx.faults.values()) > fired0
             faulty = fault_fired or truncated
             for k in ("R1", "R2", "R3", "R4"):
